@@ -5,6 +5,7 @@ package props
 import (
 	"cmp"
 	"fmt"
+	"math"
 	"math/rand/v2"
 	"sort"
 	"strings"
@@ -30,7 +31,7 @@ func init() {
 				Rule: "case = (key type and comparator: int natural, int reversed via NewFunc, string natural, string case-folding via NewFunc; universe size; history of Set/Delete/Clear through the map and through a copy of it). " +
 					"After EVERY mutation: Len, Get/GetOK (all keys of small universes, sampled otherwise), Keys, String (exact comparators), First->Next sweep to the end, Last->Prev sweep to the start, Seek(k) for every k in [min-2,max+2] (sampled for large universes) followed by Next-steps and Prev-steps, re-Seek of an already positioned iterator to each kind of target, Key/Value of invalid iterators; periodically the delete-while-iterating idiom with re-Seek after each Delete; histories drain below 1/8 of their peak to reach the delete-side rebuild. Zero Map: every documented read-only method. " +
 					"distinct = hash(comparator, universe, ops); non-trivial = the history performed seeks to all four target kinds (present, absent inside, below minimum, above maximum) and at least one Delete of a present key",
-				Required:     []string{"steps", "seek_present", "seek_absent_inside", "seek_below_min", "seek_above_max", "reseek_past_end", "iter_edit_idiom_runs", "deep_drains", "zero_map_checks", "copy_shares_checks", "prev_from_seek"},
+				Required:     []string{"steps", "seek_present", "seek_absent_inside", "seek_below_min", "seek_above_max", "reseek_past_end", "iter_edit_idiom_runs", "deep_drains", "zero_map_checks", "copy_shares_checks", "prev_from_seek", "kept_iterator_reseeks", "float_key_maps"},
 				Assumptions:  []string{"reference model: sorted slice of pairs; keys are compared with the map's own comparator (stored key spelling under a case-folding comparator is not constrained)"},
 				CoverPkgs:    []string{"github.com/creachadair/mds/omap", "github.com/creachadair/mds/stree"},
 				CoverAnchors: []string{"omap/omap.go", "stree/stree.go:InorderAfter", "stree/node.go:inorderAfter", "stree/stree.go:Cursor", "stree/stree.go:Replace", "stree/stree.go:Remove", "stree/cursor.go:Next", "stree/cursor.go:Prev", "stree/cursor.go:findNext", "stree/cursor.go:findPrev"},
@@ -401,8 +402,36 @@ func (x *c04run[K]) iterEdit() {
 	x.checkAll(zk)
 }
 
+// keptIters are iterators obtained while the map was empty (or at any other
+// time) and kept across edits; the documented way to use them again is to
+// re-Seek, after which they must be positioned like a fresh Seek.
+func (x *c04run[K]) reseekKept(kept []*omap.Iter[K, int]) {
+	if x.failed || len(x.ref) == 0 {
+		return
+	}
+	for j, it := range kept {
+		k := x.ref[x.r.IntN(len(x.ref))].k
+		if j%2 == 1 {
+			k = x.gen(x.r.IntN(x.uni+4) - 2)
+		}
+		i, _ := x.find(k)
+		it.Seek(k)
+		x.c.Add("kept_iterator_reseeks", 1)
+		if !x.iterAt(it, i, fmt.Sprintf("re-Seek(%v) of iterator #%d kept across edits since the map was empty", k, j)) {
+			return
+		}
+	}
+}
+
 func (x *c04run[K]) history(caseIdx int) {
 	r := x.r
+	var zk0 K
+	kept := []*omap.Iter[K, int]{x.m.First(), x.m.Last(), x.m.Seek(zk0), x.m2.First()}
+	defer func() {
+		if !x.failed {
+			x.reseekKept(kept)
+		}
+	}()
 	budget := 60 + r.IntN(x.c.Pick(240, 700))
 	if x.uni > 48 {
 		budget = 300 + r.IntN(x.c.Pick(900, 3000))
@@ -472,6 +501,7 @@ func (x *c04run[K]) history(caseIdx int) {
 		if len(x.ref) > peak {
 			peak = len(x.ref)
 		}
+		x.reseekKept(kept)
 	}
 	if !x.failed && x.kinds[0] && x.kinds[1] && x.kinds[2] && x.kinds[3] && x.didDel {
 		x.c.Seen(x.h.Sum() ^ uint64(len(x.log.ops)))
@@ -537,7 +567,7 @@ func c04zero(c *fw.Ctx) {
 }
 
 func runC04(c *fw.Ctx) {
-	ncases := c.Pick(22, 300)
+	ncases := c.Pick(15, 300)
 	for i := 0; i < ncases; i++ {
 		if !c.Begin(i) {
 			continue
@@ -550,7 +580,26 @@ func runC04(c *fw.Ctx) {
 		if i%5 == 4 {
 			uni = 2 + r.IntN(6)
 		}
-		switch (i + c.Block) % 4 {
+		if (i+c.Block)%11 == 10 {
+			// float keys in their natural order (cmp.Compare): NaN sorts first and equals itself, -0 == +0
+			fl := []float64{math.NaN(), math.Inf(-1), -2.5, math.Copysign(0, -1), 0, 1, 1.5, 7, math.MaxFloat64, math.Inf(1)}
+			gen := func(u int) float64 {
+				if u < 0 {
+					return math.NaN() // below every other key
+				}
+				if u >= len(fl) {
+					return math.Inf(1)
+				}
+				return fl[u]
+			}
+			c04start(c, "omap.New[float64,int] (NaN, infinities, signed zero)", omap.New[float64, int](), cmp.Compare[float64], false, gen, len(fl), i)
+			c.Add("float_key_maps", 1)
+			continue
+		}
+		switch (i + c.Block) % 5 {
+		case 4:
+			wide := func(a, b int) int { return 2 * (a - b) }
+			c04start(c, "omap.NewFunc[int,int](difference comparator)", omap.NewFunc[int, int](wide), wide, true, func(u int) int { return 3 * u }, uni, i)
 		case 0:
 			c04start(c, "omap.New[int,int]", omap.New[int, int](), cmp.Compare[int], true, func(u int) int { return 3 * u }, uni, i)
 		case 1:
